@@ -466,9 +466,17 @@ impl C04 {
                 items.push(It::Box(u(*rng.pick(&[4, 6, 6, 7, 9, 12, 20])) + if unit > 1 && rng.chance(1, 3) { rng.range(-500, 500) } else { 0 }));
                 if bi + 1 < n_boxes && rng.chance(1, 3) {
                     // discretionary, possibly replacing the next box
-                    let pre = match rng.below(10) {
+                    // pre-break list: empty (\exhyphenpenalty), non-empty of total width 0 (one zero-width
+                    // element, or elements that cancel: still \hyphenpenalty, TeX.2021.869 keys on emptiness),
+                    // or of non-zero width — independent of the two penalties
+                    let pre = match rng.below(12) {
                         0 | 1 => vec![],
                         2 => vec![u(1), u(2)],
+                        3 | 4 => vec![0],
+                        5 => {
+                            let w = u(*rng.pick(&[1, 2, 5]));
+                            vec![w, -w]
+                        }
                         _ => vec![u(2)],
                     };
                     let post = match rng.below(8) {
@@ -839,7 +847,8 @@ impl Property for C04 {
             let mut hyph = vec![];
             for i in 1..inst.items.len() {
                 if matches!(inst.items[i - 1], It::Box(_)) && matches!(inst.items[i], It::Box(_)) && !covered[i] && !covered[i - 1] && r.chance(1, 3) {
-                    hyph.push((i, 2 * unit));
+                    // a zero-width hyphen (non-empty pre-break of width 0) is still charged \\hyphenpenalty
+                    hyph.push((i, if r.chance(1, 4) { 0 } else { 2 * unit }));
                 }
             }
             let pf = if r.chance(4, 5) { [0, 65536, 1, 0] } else { [0, unit * *r.pick(&[30, 100, 200]), 0, 0] };
